@@ -468,3 +468,57 @@ class EulerAnglesRoundTrip:
         R2 = K.call(euler_rotation_matrix, b, order=case["order"])
         if K.ensure_returns(R2):
             K.ensure_eq("angles->R->angles->R", R2, R.numpy(), text=t + " [Euler angles -> matrix -> Euler angles -> matrix]")
+
+
+@register
+class PredictedRotationFlippedCoords:
+    """Bounded: GenericSpatialTransform with predicted rotation parameters and flip_grid_coords=True (the prediction is with
+    respect to (z, y, x) coordinates): the rotation handed to the elementary transformation - through the quaternion <->
+    matrix and Euler angles <-> matrix conversions - is the same rotation expressed in (x, y, z) order, P R P."""
+
+    target = "deepali.spatial.generic:GenericSpatialTransform._data"
+    properties = ("C08",)
+    symbolic = False
+    n_bounded = {"quick": 6, "thorough": 40}
+    tol = 2e-4
+
+    def cases(self, tier):
+        for model in ("Q", "R"):
+            for flip in (False, True):
+                yield {"affine_model": model, "flip": flip}
+
+    def run(self, case, K):
+        import math
+
+        from deepali.core.affine import euler_rotation_matrix
+        from deepali.core.grid import Grid
+        from deepali.core.linalg import normalize_quaternion, quaternion_to_rotation_matrix
+        from deepali.spatial import GenericSpatialTransform, TransformConfig
+
+        t = "C08: all conversions between Euler angles, quaternions, axis-angle vectors and matrices (including the transforms' parameter getters/setters) round-trip to the same rotation"
+        r = K.rng
+        N = 2
+        if case["affine_model"] == "Q":
+            q = normalize_quaternion(torch.tensor([[r.gauss(0, 1) for _ in range(4)] for _ in range(N)]))
+            R = quaternion_to_rotation_matrix(q)
+            pred = {"quaternion": q}
+        else:
+            ang = [[r.uniform(-3, 3), r.uniform(0.2, 2.9), r.uniform(-3, 3)] for _ in range(N)]
+            a = torch.tensor(ang)
+            R = euler_rotation_matrix(a, order="ZXZ")
+            pred = {"angles": a}
+        K.env["pred"] = {k: v.tolist() for k, v in pred.items()}
+
+        class Predictor(torch.nn.Module):
+            def forward(self, *args, **kwargs):
+                return {k: v.clone() for k, v in pred.items()}
+
+        cfg = TransformConfig(transform="Affine", affine_model=case["affine_model"], flip_grid_coords=case["flip"])
+        m = K.call(GenericSpatialTransform, Grid(size=(6, 7, 8)), params=Predictor(), config=cfg)
+        if not K.ensure_returns(m, text=t):
+            return
+        m.update()
+        got = K.call(m.tensor)
+        if K.ensure_returns(got, text=t):
+            want = R.flip((1, 2)) if case["flip"] else R
+            K.ensure_eq("same-rotation", got[..., :3, :3], want.numpy(), text=t + f" [predicted {case['affine_model']} parameters, flip_grid_coords={case['flip']}]")
